@@ -438,8 +438,10 @@ def resolve_diff_args(args):
     elif base and remote:
         # Three or more
         if not is_gitref(base):
+            # Only paths: compare HEAD to the working tree (as for one path)
             paths = [base, remote] + paths
-            base = remote = None
+            base = 'HEAD'
+            remote = None
         elif is_gitref(base) and not is_gitref(remote):
             paths = [remote] + paths
             remote = None
